@@ -87,6 +87,16 @@ pub mod iter {
             requires !self@.endless, forall|b: B, t: T| call_requires(f, (b, t)),
             ensures forall|g: spec_fn(B, T) -> B| (forall|b: B, t: T, o: B| #[trigger] call_ensures(f, (b, t), o) ==> o == g(b, t)) ==> r == #[trigger] sfold(self@.items, init, g),
         { unimplemented!() }
+        /// Iterator::next / StreamExt::next (after R2)
+        #[verifier::external_body]
+        pub fn next(&mut self) -> (r: Option<T>)
+            ensures
+                final(self)@.endless == old(self)@.endless,
+                old(self)@.items.len() == 0 ==> r is None && final(self)@ == old(self)@,
+                old(self)@.items.len() > 0 ==> r == Some(old(self)@.items[0])
+                    && (final(self)@.items == old(self)@.items.skip(1)
+                        || (old(self)@.endless && old(self)@.items.len() == 1 && final(self)@.items == old(self)@.items)),
+        { unimplemented!() }
         #[verifier::external_body]
         pub fn collect<C: FromIter<T>>(self) -> (r: C)
             requires !self@.endless
